@@ -81,7 +81,7 @@ def every_job_is_accounted_for(ctx):
     ctx.ob(r, '_do_get_object receives the job fields', kw == {'bucket': 'job.bucket', 'key': 'job.key', 'temp_filename': 'job.temp_filename', 'extra_args': 'job.extra_args', 'offset': 'job.offset'}, f'{kw}')
 
 
-@rule('C19.c', ['C19'], floor=3)
+@rule('C19.c', ['C19', 'C06'], floor=3)
 def last_one_finalises(ctx):
     """_finalize_download runs exactly when the remaining count returned by
     notify_job_complete is zero; the count is decremented and returned under one lock."""
